@@ -68,11 +68,14 @@ def paths(scope):
         ps += ["repeat/%s/%s" % (v, p) for p in REPEAT_PROPS]
     for v in scope.get("defined", []):
         ps += [v, v]
-    if scope.get("attrs"):
-        ps += ["attrs/" + a for a in scope["attrs"]]
+    own = ["attrs/" + a for a in scope.get("attrs") or []]
+    ps += own
     if not ps:
         return st.sampled_from(BASE_PATHS)
-    # names the enclosing elements put in scope are drawn as often as the fixed ones (the fixed list is long)
+    # names the enclosing elements put in scope are drawn as often as the fixed ones (the fixed list is long); the element's
+    # own attributes (`attrs`, which changes with every element) are not crowded out by the many loop properties either
+    if own and len(ps) > 3 * len(own):
+        return st.one_of(st.sampled_from(BASE_PATHS), st.sampled_from(ps), st.sampled_from(ps), st.sampled_from(own))
     return st.one_of(st.sampled_from(BASE_PATHS), st.sampled_from(ps))
 
 
